@@ -190,12 +190,8 @@ Definition k_empty_settings (frames : list frame) : bool :=
   | Some f => Nat.ltb (length (f_payload f)) 6
   | None => false
   end.
-(* K2: a pseudo-header field whose name or value is not UTF-8 is dropped from the order *)
-Definition k_nonutf8 (frames : list frame) : bool :=
-  existsb (fun h => negb (utf8_valid (fst h) && utf8_valid (snd h)))
-          (filter is_pseudo (first_block_headers frames)).
 Definition known (frames : list frame) : bool :=
-  k_empty_settings frames || k_nonutf8 frames.
+  k_empty_settings frames.
 
 (* ---------- vocabulary of the incremental theorems ---------- *)
 (* one-shot results on the successive prefixes  buf ++ c1,  buf ++ c1 ++ c2, ... *)
